@@ -11,7 +11,8 @@ LEVEL = 'exploration'
 RULE = ('Hypothesis-generated pairs of tables (empty, duplicate keys on both sides, ragged B, ragged A on non-key columns) x {JOIN, INNER JOIN, LEFT JOIN, '
         'LEFT OUTER JOIN, STRICT LEFT JOIN} x 1-3 key pairs (== / =, either side order, NR/aNR/a.NR with bNR/b.NR or a field) x downstream shape '
         '(select/where/star/unnest, order/distinct/top, aggregates with GROUP BY, UPDATE). Oracle = nested-loop reference expansion followed by the '
-        'reference semantics of the downstream shape. Non-trivial = some A record with >=2 matches and some A record with none; distinct = case digests.')
+        'reference semantics of the downstream shape. Non-trivial = some A record with >=2 matches and some A record with none; distinct = case digests.'
+        ' Later additions: zero-field join records, numeric look-alike key strings (7 / 7.0 / 07), key cells equal in value but not in type (2 / 2.0 / True), fewer NR keys and more multi-match joins (generator rebalanced).')
 ASSUMPTIONS = ['join key fields exist in every record (a missing key field is an error by design, asserted in C14)',
                'STRICT LEFT failure is only demanded for queries that scan all of A']
 
